@@ -1,6 +1,8 @@
-"""C15 peer-to-peer call life cycle: theorems in coq/Props/PropC15.v over Sys/Call.v;
-correspondence + monitors through the call driver (TestVerifCall) which runs the real
-hub / p2p topic / sessions above memverif, against the extracted model (runner c15)."""
+"""C15 peer-to-peer call life cycle: theorems in coq/Props/PropC15.v over Sys/Call.v and
+Sys/CallCat.v (the topic category as a parameter of the invitation gate; the world of the p2p
+topic + group topic / channel, 'me', 'fnd', 'sys'); correspondence + monitors through the call
+driver (TestVerifCallX = TestVerifCall + requests addressed to the other kinds of topic) which
+runs the real hub / topics / sessions above memverif, against the extracted model (runner c15x)."""
 import json
 import os
 import re
@@ -11,6 +13,9 @@ import vlib
 EVENTS = ["ringing", "accept", "offer", "answer", "ice-candidate", "hang-up", "bogus"]
 END_STATES = ("finished", "declined", "missed", "disconnected")
 SESSIONS = {1: 1, 2: 1, 3: 2, 4: 2, 5: 3, 6: 1, 7: 2}
+ROOT_SESSION = 8            # extended scenarios: a root-level connection of user 3 (may attach to 'sys')
+OTHER_TOPICS = ("G", "C", "sys", "fnd")      # canonical names of topics that are not the p2p topic ('me' apart)
+TREFS = ("grp", "chn", "sys", "me", "fnd")
 
 
 def kvs(text):
@@ -18,32 +23,53 @@ def kvs(text):
 
 
 class Scn:
-    def __init__(self, sid, cfg=1, sessions=None):
+    def __init__(self, sid, cfg=1, sessions=None, ext=False, gw2=1, xatt=(), roots=()):
         self.id = sid
         self.cfg = cfg
         self.sessions = dict(sessions or SESSIONS)
+        self.ext = ext              # the other kinds of topic exist (group/channel, fnd, sys attachments)
+        self.gw2 = gw2              # user 2 may write to the group topic
+        self.xatt = [tuple(x) for x in xatt]      # (session, grp|chn|fnd|sys) attached before the first op
+        self.roots = set(roots)
         self.ops = []
 
     @property
     def head(self):
-        return ["scn %s cfg=%d" % (self.id, self.cfg)] + ["sess %d %d" % (s, u) for s, u in sorted(self.sessions.items())]
+        h = ["scn %s cfg=%d" % (self.id, self.cfg) + (" x=1 gw2=%d" % self.gw2 if self.ext else "")]
+        h += ["sess %d %d" % (s, u) + (" root" if s in self.roots else "") for s, u in sorted(self.sessions.items())]
+        return h + ["xatt %d %s" % (s, t) for s, t in self.xatt]
 
     def lines(self):
         return self.head + ["op %s %s" % (k, " ".join(str(a) for a in args)) if args else "op %s" % k for k, args in self.ops] + ["end"]
 
     def clone(self, ops, sid=None):
-        s = Scn(sid or self.id, self.cfg, self.sessions)
+        s = Scn(sid or self.id, self.cfg, self.sessions, self.ext, self.gw2, self.xatt, self.roots)
         s.ops = [(k, list(a)) for k, a in ops]
         return s
 
+    def key_of(self, tref, s):
+        """the driver's name of the topic a session means by grp|chn|sys|me|fnd"""
+        if tref in ("grp", "chn"):
+            return "G"
+        if tref == "sys":
+            return "sys"
+        return "%s%d" % (tref, self.sessions.get(s, 0))
+
     @staticmethod
     def from_replay(rp, sid):
-        cfg = 1 if "cfg=1" in rp["head"][0] else 0
-        sess = {}
+        w0 = rp["head"][0].split()
+        kv = kvs(rp["head"][0])
+        cfg = 1 if kv.get("cfg") == "1" else 0
+        sess, xatt, roots = {}, [], set()
         for l in rp["head"][1:]:
             w = l.split()
-            sess[int(w[1])] = int(w[2])
-        s = Scn(sid, cfg, sess)
+            if w[0] == "sess":
+                sess[int(w[1])] = int(w[2])
+                if len(w) > 3 and w[3] == "root":
+                    roots.add(int(w[1]))
+            elif w[0] == "xatt":
+                xatt.append((int(w[1]), w[2]))
+        s = Scn(sid, cfg, sess, kv.get("x") == "1", int(kv.get("gw2", "1")), xatt, roots)
         s.ops = [(k, list(a)) for k, a in rp["ops"]]
         return s
 
@@ -63,7 +89,12 @@ class View:
         self.msgs = []
         self.fired = None
         self.hang = None
+        self.xt = {}         # other topics: key -> dict(call, timer, seqid, att)
+        self.xmsgs = []      # rows added to other topics by this op
         for ln in lines:
+            if "=?" in ln:
+                # frames printed by the p2p driver's renderer name the group topic / channel by its raw name
+                ln = re.sub(r"=\?sys\b", "=sys", re.sub(r"=\?fnd\S*", "=fnd", re.sub(r"=\?grp\S*", "=G", re.sub(r"=\?chn\S*", "=C", ln))))
             w = ln.split(" ", 1)
             if w[0][0] == "S" and w[0][1:].isdigit():
                 if w[1].startswith(("pres ", "meta")):
@@ -94,6 +125,15 @@ class View:
                                       sender=int(d["sender"]), content=d["content"]))
             elif w[0] == "fired":
                 self.fired = int(w[1])
+            elif w[0] == "xt":
+                d = kvs(w[1])
+                self.xt[w[1].split()[0]] = dict(call=d["call"], timer=int(d["timer"]), seqid=int(d["seqid"]),
+                                                att=tuple(int(x) for x in d["att"].split(",") if x))
+            elif w[0] == "xmsg":
+                d = kvs(w[1])
+                ww = w[1].split()
+                self.xmsgs.append(dict(key=ww[0], seq=int(ww[1]), frm=int(d["from"]), replace=d["replace"], webrtc=d["webrtc"],
+                                       sender=int(d["sender"]), content=d["content"]))
             elif w[0] == "HANG":
                 self.hang = ln
 
@@ -101,7 +141,9 @@ class View:
         c = self.call
         return (self.loaded, None if c is None else tuple(sorted(c.items())), self.timer, self.lastid,
                 tuple(sorted((u, tuple(sorted(p.items()))) for u, p in self.users.items() if u in (1, 2))),
-                tuple(sorted(self.att)), self.storeseq, tuple(tuple(sorted(m.items())) for m in self.msgs), self.fired)
+                tuple(sorted(self.att)), self.storeseq, tuple(tuple(sorted(m.items())) for m in self.msgs), self.fired,
+                tuple(sorted((k, tuple(sorted(d.items()))) for k, d in self.xt.items())),
+                tuple(tuple(sorted(m.items())) for m in self.xmsgs))
 
 
 def parse_blocks(lines):
@@ -127,7 +169,7 @@ def parse_blocks(lines):
 class ModelProc:
     """the extracted model stepped interactively (model-guided generation)"""
     def __init__(self):
-        self.p = subprocess.Popen([os.path.join(vlib.BUILD, "runner"), "c15"], stdin=subprocess.PIPE, stdout=subprocess.PIPE,
+        self.p = subprocess.Popen([os.path.join(vlib.BUILD, "runner"), "c15x"], stdin=subprocess.PIPE, stdout=subprocess.PIPE,
                                   text=True, bufsize=1)
 
     def line(self, l):
@@ -172,9 +214,15 @@ def gen_tail(rng, mp, sc, v, n, st):
     """append n model-guided ops to sc; v = the model's view after the ops so far; st = generator bookkeeping"""
     sess = sc.sessions
     for _ in range(n):
-        live = [s for s in sess if s not in st["dead"]]
+        # the root-level connection is used only for requests to the other topics
+        live = [s for s in sess if s not in st["dead"] and s not in sc.roots]
         if not live:
             break
+        if sc.ext and rng.random() < 0.2:
+            kind, args = gen_xop(rng, sc, v, st)
+            sc.ops.append((kind, args))
+            v = mp.op(kind, args)
+            continue
         att = [s for s in live if s in v.att]
         cur = v.call
         anydel = any(p["deleted"] for p in v.users.values())
@@ -265,8 +313,50 @@ def gen_tail(rng, mp, sc, v, n, st):
     return v
 
 
+def gen_xop(rng, sc, v, st):
+    """a request addressed to a topic that is NOT the p2p topic: an invitation, a client-made replacement, an
+    ordinary message or a call event, aimed by the model's view of those topics"""
+    sess = sc.sessions
+    live = [s for s in sess if s not in st["dead"]]
+    tref = wchoice(rng, [("grp", 30), ("chn", 12), ("sys", 30), ("me", 14), ("fnd", 14)])
+    fixed = [s for s, t in sc.xatt if t == tref and s in live]
+    if tref == "me":
+        fixed = [s for s in live if s in v.xt.get("me%d" % sess[s], {}).get("att", ())]
+    if tref == "sys":
+        s = rng.choice(live)
+    else:
+        s = rng.choice(fixed) if fixed and rng.random() < 0.8 else rng.choice(live)
+    xt = v.xt.get(sc.key_of(tref, s), {})
+    cur = v.call
+    seqs = [1, xt.get("seqid", 0), xt.get("seqid", 0) + 1, v.lastid, st["lastcall"]] + ([cur["seq"]] * 3 if cur else [])
+    if rng.random() < 0.68:
+        r = rng.random()
+        if r < 0.6:
+            w, repl = "started", "-"
+        elif r < 0.8:
+            w, repl = rng.choice(["accepted", "finished", "declined", "missed", "disconnected", "bogus"]), ":%d" % max(1, rng.choice(seqs))
+        else:
+            w, repl = "-", ("-" if rng.random() < 0.8 else ":%d" % max(1, rng.choice(seqs)))
+        return "xpub", [s, tref, 100 + len(sc.ops), w, repl]
+    return "xnote", [s, tref, rng.choice(EVENTS), rng.choice(seqs + [0, -1]), rng.randint(1, 9)]
+
+
 def gen_scn(rng, mp, sid, nops=(8, 28)):
     sc = Scn(sid, 1 if rng.random() < 0.92 else 0)
+    if rng.random() < 0.5:
+        # the other kinds of topic: a channel-enabled group topic (user 1 owner, user 2 member, user 3 reads it as a
+        # channel), each user's 'me' and 'fnd', and 'sys' with a root-level connection of user 3 attached
+        sc.ext = True
+        sc.gw2 = 1 if rng.random() < 0.8 else 0
+        sc.sessions[ROOT_SESSION] = 3
+        sc.roots = {ROOT_SESSION}
+        xa = [(x, "grp") for x in (1, 2, 3, 4, 6, 7) if rng.random() < 0.45]
+        if rng.random() < 0.8:
+            xa.append((5, "chn"))
+        xa += [(x, "fnd") for x in (1, 3, 5) if rng.random() < 0.35]
+        if rng.random() < 0.8:
+            xa.append((ROOT_SESSION, "sys"))
+        sc.xatt = xa
     mp.start(sc)
     st = dict(dead=set(), lastcall=1, prevcall=1)
     v = View([])
@@ -326,7 +416,7 @@ def run_impl(ctx, scns, tag="t"):
     if os.path.exists(fout):
         os.remove(fout)
     env = dict(vlib.GOENV, VERIF_IN=fin, VERIF_OUT=fout)
-    p = subprocess.run([os.path.join(vlib.BUILD, "maindrv.test"), "-test.run", "^TestVerifCall$", "-test.count=1", "-test.timeout=3000s"],
+    p = subprocess.run([os.path.join(vlib.BUILD, "maindrv.test"), "-test.run", "^TestVerifCallX$", "-test.count=1", "-test.timeout=3000s"],
                        stdout=subprocess.PIPE, stderr=subprocess.STDOUT, env=env, cwd=os.path.join(vlib.REPO, "server"), timeout=3400)
     out = p.stdout.decode("utf8", "replace")
     lines = open(fout).read().split("\n") if os.path.exists(fout) else []
@@ -338,7 +428,7 @@ def run_model(ctx, scns):
     lines = []
     for sc in scns:
         lines += sc.lines()
-    rc, out, err = ctx.run_model("c15", lines)
+    rc, out, err = ctx.run_model("c15x", lines)
     flat = []
     for o in out:
         flat += o.split("\n")
@@ -352,6 +442,53 @@ def init_view():
     v = View([])
     v.users = {1: dict(w=True, r=True, p=True, deleted=False), 2: dict(w=True, r=True, p=True, deleted=False)}
     return v
+
+
+def other_laws(sc, k, kind, args, prev, v, fail):
+    """'A call can be started only in a peer-to-peer topic': the laws about every topic that is NOT the p2p topic
+    (group topic / channel, 'me', 'fnd', 'sys'), on the implementation's answers and state dumps"""
+    what = "%s %s" % (kind, " ".join(str(a) for a in args))
+    for key, d in sorted(v.xt.items()):
+        if d["call"] != "none" or d["timer"]:
+            fail("no-call-outside-p2p", k, "after `%s` topic %s (not peer-to-peer) has Topic.currentCall=%s, establishment timer armed=%d"
+                 % (what, key, d["call"], d["timer"]))
+    for m in v.xmsgs:
+        if m["webrtc"] != "-":
+            fail("no-call-message-outside-p2p", k, "after `%s` topic %s (not peer-to-peer) stores message #%d with head.webrtc=%s head.replace=%s"
+                 % (what, m["key"], m["seq"], m["webrtc"], m["replace"]))
+    for x, t in v.frames:
+        d = kvs(t)
+        if t.startswith("data ") and d.get("topic") in OTHER_TOPICS + ("me",) and d.get("webrtc") != "-":
+            fail("no-call-message-outside-p2p", k, "after `%s` session %d received on topic %s: %s" % (what, x, d.get("topic"), t))
+        if t.startswith("info ") and d.get("what") == "call" and d.get("topic") in OTHER_TOPICS:
+            fail("no-call-info-outside-p2p", k, "after `%s` session %d received a call event on topic %s: %s" % (what, x, d.get("topic"), t))
+    if kind not in ("xpub", "xnote"):
+        return
+    s = args[0]
+    vv = carry(prev, v)
+    frames_self = [t for x, t in v.frames if x == s]
+    frames_other = [(x, t) for x, t in v.frames if x != s]
+    p2p_changed = (prev.call != vv.call or vv.lastid != prev.lastid or bool(v.msgs) or vv.timer != prev.timer)
+    core = lambda d: (d["call"], d["timer"], d["seqid"])
+    before = lambda key: core(prev.xt[key]) if key in prev.xt else ("none", 0, 0)     # every scenario starts from fresh topics
+    xt_changed = sorted(key for key, d in v.xt.items() if before(key) != core(d))
+    infos = [(x, t) for x, t in v.frames if t.startswith("info ")]
+    if infos:
+        fail("no-call-info-outside-p2p", k, "`%s` (addressed to a topic that is not peer-to-peer) produced %s" % (what, infos))
+    if p2p_changed:
+        fail("other-topic-request-touches-call", k, "`%s` changed the p2p topic: call %s -> %s, lastid %d -> %d, rows %s"
+             % (what, prev.call, vv.call, prev.lastid, vv.lastid, v.msgs))
+    if kind == "xpub" and args[3] != "-":
+        if any(t.startswith("ctrl 2") for t in frames_self):
+            fail("invite-outside-p2p-refused", k, "`%s`: a {pub} with head.webrtc addressed to %s (not peer-to-peer) was acknowledged: %s"
+                 % (what, sc.key_of(args[1], s), frames_self))
+        if xt_changed or v.xmsgs or frames_other:
+            fail("invite-outside-p2p-no-trace", k, "`%s` left a trace: topics changed %s, rows %s, frames to others %s"
+                 % (what, [(key, before(key), core(v.xt[key])) for key in xt_changed], v.xmsgs, frames_other))
+    if kind == "xnote":
+        if xt_changed or v.xmsgs or frames_other:
+            fail("call-note-outside-p2p-ignored", k, "`%s` had an effect: topics changed %s, rows %s, frames to others %s"
+                 % (what, [(key, before(key), core(v.xt[key])) for key in xt_changed], v.xmsgs, frames_other))
 
 
 def monitor(sc, views):
@@ -370,6 +507,8 @@ def monitor(sc, views):
         su = sess.get(s)
         if v.hang:
             fail("hang", k, v.hang)
+        if sc.ext:
+            other_laws(sc, k, kind, args, prev, v, fail)
         if s is not None and (s in dead or s not in sess):
             prev = carry(prev, v)
             continue
@@ -384,7 +523,7 @@ def monitor(sc, views):
 
         # nobody outside the conversation ever sees anything of it
         for x, t in v.frames:
-            if sess.get(x) not in (1, 2) and (t.startswith("data ") or t.startswith("info ")):
+            if sess.get(x) not in (1, 2) and (t.startswith("data ") or t.startswith("info ")) and kvs(t).get("topic") not in OTHER_TOPICS:
                 fail("third-user-gets-nothing", k, "session %d of user %s received: %s" % (x, sess.get(x), t))
 
         if v.loaded and v.timer != (1 if (vc is not None and not vc["accepted"]) else 0):
@@ -559,6 +698,7 @@ def carry(prev, v):
         return v
     nv = View([])
     nv.users, nv.att, nv.call, nv.lastid, nv.timer = prev.users, prev.att, prev.call, prev.lastid, prev.timer
+    nv.xt = v.xt or prev.xt
     return nv
 
 
@@ -569,6 +709,10 @@ def proj_frames(sc, k, v, leaving=()):
     d = {}
     for x, t in v.frames:
         if kind in ("setw",) and (t.startswith("ctrl 200") or t.startswith("ctrl 304")):
+            continue
+        if kind == "xpub" and t.startswith("data ") and kvs(t).get("webrtc") == "-":
+            # the fan-out of an ordinary message on a group topic / channel / sys (who reads it, under which name) is not
+            # part of this property's projection (C02); a {data} carrying head.webrtc there is, and is a law violation
             continue
         src = "me" if (t.startswith("info ") and "topic=me" in t) else "t"
         if src == "me" and x in leaving:
@@ -588,7 +732,7 @@ def diff_op(sc, k, iv, mv, prev_att=()):
         res.append(("frames", {str(x): t for x, t in a.items() if b.get(x) != t}, {str(x): t for x, t in b.items() if a.get(x) != t}))
     if iv.state_key() != mv.state_key():
         ik, mk = iv.state_key(), mv.state_key()
-        names = ("loaded", "call", "timer", "lastid", "users", "att", "store", "msgs", "fired")
+        names = ("loaded", "call", "timer", "lastid", "users", "att", "store", "msgs", "fired", "other_topics", "other_topic_rows")
         res.append(("state", {n: x for n, x, y in zip(names, ik, mk) if x != y}, {n: y for n, x, y in zip(names, ik, mk) if x != y}))
     return res
 
@@ -631,6 +775,39 @@ CORPUS = [
 ]
 
 
+# the other kinds of topic (cfg, gw2, attachments before the first op, ops)
+XATT = [(1, "grp"), (3, "grp"), (5, "chn"), (4, "fnd"), (ROOT_SESSION, "sys")]
+XCORPUS = [
+    # invitations, client-made replacements, ordinary messages and call events to a group topic (as member, as channel
+    # reader, unattached), 'me', 'fnd' and 'sys' (attached root session, unattached ordinary sessions), before, while and
+    # after a p2p call
+    (1, 1, XATT,
+     [("attach", [1]), ("attach", [3]), ("attachme", [2]), ("xpub", [1, "grp", 7, "-", "-"]), ("xpub", [1, "grp", 8, "started", "-"]),
+      ("xpub", [3, "grp", 9, "accepted", ":1"]), ("xpub", [5, "chn", 10, "started", "-"]), ("xpub", [5, "chn", 10, "-", "-"]),
+      ("xpub", [2, "me", 11, "started", "-"]), ("xpub", [2, "me", 11, "-", "-"]), ("xpub", [4, "fnd", 12, "started", "-"]),
+      ("xpub", [5, "sys", 13, "started", "-"]), ("xpub", [5, "sys", 14, "-", "-"]), ("xpub", [8, "sys", 14, "started", "-"]),
+      ("xpub", [6, "grp", 15, "started", "-"]), ("xpub", [6, "me", 15, "started", "-"]), ("xnote", [3, "grp", "accept", 1, 4]),
+      ("xnote", [6, "grp", "hang-up", 1, 4]), ("xnote", [6, "grp", "offer", 1, 4]), ("xnote", [5, "sys", "accept", 1, 4]),
+      ("xnote", [8, "sys", "ringing", 1, 4]), ("xnote", [2, "me", "ringing", 1, 4]), ("invite", [1, 101, "started"]),
+      ("xpub", [3, "grp", 16, "started", "-"]), ("xpub", [4, "sys", 16, "started", "-"]), ("xnote", [3, "grp", "accept", 1, 4]),
+      ("xnote", [4, "sys", "accept", 1, 4]), ("event", [3, "accept", 1, 2]), ("xpub", [3, "sys", 17, "finished", ":1"]),
+      ("xnote", [3, "grp", "hang-up", 1, 4]), ("disc", [1]), ("xpub", [5, "sys", 18, "missed", ":1"]), ("xpub", [3, "grp", 19, "started", "-"]),
+      ("invite", [3, 102, "started"]), ("timeout", [])]),
+    # calling not configured; user 2 cannot write to the group
+    (0, 0, XATT,
+     [("attach", [1]), ("attach", [3]), ("xpub", [1, "grp", 7, "started", "-"]), ("xpub", [3, "grp", 7, "started", "-"]),
+      ("xpub", [3, "grp", 8, "-", "-"]), ("xpub", [5, "sys", 9, "started", "-"]), ("xpub", [8, "sys", 9, "started", "-"]),
+      ("xpub", [4, "fnd", 10, "started", "-"]), ("xpub", [5, "chn", 11, "started", "-"]), ("invite", [1, 101, "started"]),
+      ("xnote", [5, "sys", "accept", 1, 1])]),
+    # nobody attached anywhere: 'sys' still takes the request, everything else wants an attachment first
+    (1, 1, [],
+     [("xpub", [1, "sys", 7, "started", "-"]), ("xpub", [5, "sys", 8, "bogus", ":1"]), ("xpub", [1, "grp", 9, "started", "-"]),
+      ("xpub", [5, "chn", 9, "started", "-"]), ("xpub", [3, "me", 9, "started", "-"]), ("xpub", [3, "fnd", 9, "started", "-"]),
+      ("xpub", [1, "sys", 10, "-", "-"]), ("xpub", [3, "sys", 11, "started", "-"]), ("xnote", [1, "sys", "hang-up", 1, 1]),
+      ("attach", [1]), ("invite", [1, 101, "started"]), ("xpub", [3, "sys", 12, "started", "-"]), ("timeout", [])]),
+]
+
+
 def run(ctx):
     ctx.coq_props()
     vlib.proof_violation(ctx)
@@ -652,6 +829,10 @@ def run(ctx):
         scns = []
         for i, (cfg, ops) in enumerate(CORPUS):
             sc = Scn("c%d" % i, cfg)
+            sc.ops = [(k, list(a)) for k, a in ops]
+            scns.append(sc)
+        for i, (cfg, gw2, xatt, ops) in enumerate(XCORPUS):
+            sc = Scn("x%d" % i, cfg, dict(list(SESSIONS.items()) + [(ROOT_SESSION, 3)]), True, gw2, xatt, {ROOT_SESSION})
             sc.ops = [(k, list(a)) for k, a in ops]
             scns.append(sc)
         cdir = os.path.join(vlib.ROOT, "corpus", ctx.pid)
@@ -738,7 +919,7 @@ def run(ctx):
                           {"correspondence": "projection of C15", "head": base.head, "ops": base.ops, "diff": d})
 
     # coverage
-    kinds, codes, endings, events = {}, {}, {}, {}
+    kinds, codes, endings, events, outside = {}, {}, {}, {}, {}
     nops = 0
     nt = set()
     for sc in scns:
@@ -747,6 +928,11 @@ def run(ctx):
             nops += 1
             kinds[kind] = kinds.get(kind, 0) + 1
             v = impl[sc.id][k]
+            if kind in ("xpub", "xnote"):
+                what = "note" if kind == "xnote" else ("invite" if args[3] == "started" else ("replacement" if args[3] != "-" else "plain"))
+                ans = ",".join(sorted(t.split()[1] for x, t in v.frames if x == args[0] and t.startswith("ctrl "))) or "silent"
+                key = "%s %s -> %s" % (what, args[1], ans)
+                outside[key] = outside.get(key, 0) + 1
             if kind == "event":
                 tk = "taken" if (v.msgs or [1 for x, t in v.frames if x != args[0]]) else "ignored"
                 events["%s/%s" % (args[1], tk)] = events.get("%s/%s" % (args[1], tk), 0) + 1
@@ -762,21 +948,23 @@ def run(ctx):
             nt.add(hash(repr([(o, tuple(impl[sc.id][k].frames)) for k, o in enumerate(sc.ops)])))
     ctx.coverage.update({
         "evaluations": len(scns), "distinct_nontrivial": len(nt),
-        "rule": "corpus of 5 hand-written call histories + seeded model-guided random histories over one p2p topic: 3 users (two participants + a third user naming the topic by its p2p name), 7 connections, calls configured in ~92% of the histories; ops attach/attach-me/leave/unsubscribe/disconnect/invite(head.webrtc started|other)/pub/call event (7 kinds, seq right 78% else cur-1|cur+1|lastid|lastid+1|previous call|0|-1, from party, callee-user, originator-user, third-user and unattached sessions)/timeout/W-permission change (own want, other's given), 8-28 ops after the skeleton; non-trivial = at least one acceptance or ending published; distinct by (ops, frames)",
+        "rule": "corpus of 5 hand-written call histories + 3 hand-written histories with requests to the other kinds of topic + seeded model-guided random histories: 3 users (two participants of the p2p topic + a third user naming it by its p2p name), 7 connections, calls configured in ~92% of the histories; ops attach/attach-me/leave/unsubscribe/disconnect/invite(head.webrtc started|other)/pub/call event (7 kinds, seq right 78% else cur-1|cur+1|lastid|lastid+1|previous call|0|-1, from party, callee-user, originator-user, third-user and unattached sessions)/timeout/W-permission change (own want, other's given), 8-28 ops after the skeleton; in half of the histories the other kinds of topic exist as well (a channel-enabled group topic: user 1 owner, user 2 member with or without W, user 3 channel reader; 'me' and 'fnd' of each user; 'sys' with a root-level connection attached in 80%) and ~20% of the ops are addressed to them: {pub} with head.webrtc=started (60%), with a server call state + head.replace=:<id> (20%), ordinary (20%), and {note what=call} of all 7 kinds with the id of the p2p call / of that topic's last message, from attached and unattached sessions ('sys' needs no attachment); non-trivial = at least one acceptance or ending published; distinct by (ops, frames)",
         "operations_executed": nops,
-        "samples": [{"head": sc.head, "ops": sc.ops} for sc in scns[5:7]],
+        "samples": [{"head": sc.head, "ops": sc.ops} for sc in scns[8:10]],
         "traces_validated_against_impl": len(scns), "correspondence_mismatches": len(mism), "monitor_failures_not_known": len(fails),
         "monitor_failures_by_law": {l: len(v) for l, v in seen.items()},
         "search_pool": searched,
-        "input_distribution": {"op_kinds": kinds, "ctrl_codes": codes, "published_call_states": endings, "events_taken_or_ignored": events,
+        "input_distribution": {"op_kinds": kinds, "ctrl_codes": codes, "published_call_states": endings, "events_taken_or_ignored": events, "requests_outside_p2p": outside,
                                "ops_per_scenario_max": max(len(sc.ops) for sc in scns)},
         "impl_wall_s": round(t_impl, 1),
         "trusted_base": [
+            "harness/overlay/server/zz_verif_c15x_test.go: the same driver plus real {pub}/{note} to a real group topic / channel, 'me', 'fnd' and 'sys' (reloaded per scenario, ids relative); reads currentCall/timer/lastID/sessions of those topics and their memverif rows at quiescence",
             "harness/overlay/server/zz_verif_c15_test.go (+ helpers of zz_verif_topic_test.go): drives the real Hub/Topic/Session code through Session.dispatchRaw; quiescence by goroutine-state snapshot; reads Topic.currentCall/lastID/perUser/sessions and probes/fires Topic.callEstablishmentTimer only at quiescence (time.Timer methods are goroutine-safe)",
             "Go >= 1.23 timer semantics (no stale tick after Stop/Reset); go.mod says go 1.23",
             "harness/overlay/server/db/memverif: in-memory adapter written from db/mysql/adapter.go (store contract modelled, not verified)",
             "tools/props/c15.py monitors: python restatement of the property on the implementation's trace",
+            "model scope (coq/Sys/CallCat.v header): other topics never paused/read-only in the runs (the gate theorem covers both bits), attachments to them fixed before the first op (+ disconnect), recipients of ordinary {data} there over-approximated and not compared",
             "model scope (coq/Sys/Call.v header): one p2p topic, R and P bits constant, no cluster/proxy sessions, topic never paused/deleted/unloaded, store never fails, no re-subscription after unsubscribing",
-            "projection compared for C15: ctrl/data/info frames per session (p2p topic and 'me' separately), current call (seq, parties, content, accepted), timer armed, lastID, W/deleted per participant, attached sessions, message rows written (seq, from, head.replace, head.webrtc, head.sender, content)"],
+            "projection compared for C15: ctrl/data/info frames per session (p2p topic and 'me' separately), current call (seq, parties, content, accepted), timer armed, lastID, W/deleted per participant, attached sessions, message rows written (seq, from, head.replace, head.webrtc, head.sender, content); for every other topic: current call, timer armed, lastID, attached sessions, rows written, ctrl answers, {data} carrying head.webrtc, {info}"],
     })
     ctx.finish()
